@@ -212,6 +212,21 @@ class C02(Prop):
     def budget_s(self, tier: str) -> float:
         return 240 if tier == "quick" else 3000
 
+    def post_campaign(self, tier: str, seed: int, tolerate: list[str]) -> dict[str, Any]:
+        """Thorough tier: coverage-guided campaign (atheris / libFuzzer) with this module's
+        check() as the oracle inside the target; empty and CTS-seeded corpora."""
+        if tier != "thorough":
+            return {}
+        from lv.core import fuzz
+
+        seeds = [t["template"] for t in corpus()][::7]
+        info = fuzz.run_campaign(self.id, seed, runs=int(__import__("os").environ.get("LV_FUZZ_RUNS", "2000000")),
+                                 tolerate=tolerate, procs=8, seed_corpus=seeds, max_time_s=900)
+        return {"cases": [c["case"] for c in info.get("cases", [])],
+                "evidence": {"atheris_available": info.get("available", False), "atheris_runs": info.get("runs", 0),
+                             "atheris_corpus_entries": info.get("corpus_entries", 0),
+                             "atheris_violating_inputs": len(info.get("cases", []))}}
+
     # ------------------------------------------------------------------ oracle
 
     def check(self, case: Any, disabled: frozenset[str] = frozenset()) -> Result:
